@@ -59,6 +59,9 @@ PINS = [
     'mesonbuild.backend.ninjabackend:NinjaBackend.get_introspection_data',
     'mesonbuild.backend.ninjabackend:NinjaBackend.create_target_source_introspection',
     'mesonbuild.utils.core:EnvironmentVariables',
+    'mesonbuild.backend.backends:Backend.write_test_serialisation', 'mesonbuild.backend.backends:Backend.construct_target_rel_paths',
+    'mesonbuild.backend.backends:Backend.get_target_filename', 'mesonbuild.backend.backends:Backend.get_exe_interpreter',
+    'mesonbuild.backend.backends:TestSerialisation', 'mesonbuild.interpreter.interpreterobjects:Test',
     'mesonbuild.interpreter.interpreter:Interpreter.get_build_def_files', 'mesonbuild.interpreter.interpreter:Interpreter.do_subproject',
     'mesonbuild.interpreter.interpreter:Interpreter._do_subproject_meson', 'mesonbuild.interpreterbase.interpreterbase:InterpreterBase._load_option_file',
 ]
@@ -68,6 +71,8 @@ TRUSTED = [
     'message() prints the value get_option() returned (\'@0@\'.format)',
     'Lean Ninja manifest parser (area ninja, C04) when available; Python reader otherwise',
     'fake ninja (answers --version only): no statement of build.ninja is executed',
+    'harness/c15_ser.py Describer: reading the abstract test table (object identities, target kinds, link dependencies, environment '
+    'objects and the lists they share) off the real Interpreter / Build objects',
 ]
 
 CORPUS_DIR = os.path.join(common.VERIF, 'harness', 'c15_projects')
@@ -1732,6 +1737,179 @@ def getenv_correspondence(ctx: Ctx) -> None:
     ctx.tag('getenv-sequences', n)
 
 
+# ------------------------------------------------------------------------------------------------ the producers of the test files
+
+SER_WORKER = os.path.join(common.VERIF, 'harness', 'c15_ser.py')
+
+
+def run_ser_worker(seed: int, ntests: int, subtables: int, scratch: str) -> dict:
+    e = dict(os.environ)
+    e['PATH'] = projgen.FAKEBIN + os.pathsep + e.get('PATH', '')
+    e['PYTHONPATH'] = common.REPO
+    e['PYTHONDONTWRITEBYTECODE'] = '1'
+    for k in ('MESON_RSP_THRESHOLD', 'NINJA', 'CC', 'CFLAGS', 'LDFLAGS', 'CPPFLAGS', 'LD_LIBRARY_PATH'):
+        e.pop(k, None)
+    job = {'seed': seed, 'root': os.path.join(scratch, f'ser{seed}'), 'ntests': ntests, 'subtables': subtables,
+           'meson': os.path.join(common.REPO, 'meson.py')}
+    try:
+        p = subprocess.run([sys.executable, SER_WORKER], input=json.dumps(job).encode(), env=e, stdout=subprocess.PIPE,
+                           stderr=subprocess.PIPE, timeout=600, cwd=scratch)
+        r = json.loads(p.stdout.decode('utf-8', errors='replace'))
+    except Exception as ex:
+        r = {'ok': False, 'error': f'{type(ex).__name__}: {ex}'}
+    r['seed'] = seed
+    return r
+
+
+def ser_obj(o: list) -> str:
+    k, v = o
+    base = k[-1]
+    if base in 'sf':
+        return f'{k}:{S(v)}'
+    if base == 't':
+        return f'{k}:{v}'
+    if base == 'x':
+        return f'{k}:{L(v)}'
+    return f'{k}:'
+
+
+def ser_ops(ops: T.List[list]) -> str:
+    return '&'.join(':'.join([o[0], S(o[1]), L(o[2]), S(o[3])]) for o in ops)
+
+
+def ser_request(bd: str, darwin: bool, table: dict) -> str:
+    objs = '/'.join(f'{a};{u}' for a, u in table['objs'])
+    cells = '/'.join(ser_ops(c['ops']) + ';' + L(c['names']) for c in table['cells'])
+    tg = '/'.join(';'.join([str(t['obj']), S(t['id']), t['kind'], S(t['dir']), S(t['filename']), L(t['outputs']),
+                            '&'.join(f'{k}:{S(d)}' for k, d in t['linkdeps'])]) for t in table['targets'])
+    ts = '/'.join(';'.join([S(t['name']), L(t['suite']), ser_obj(t['exe']), '&'.join(ser_obj(a) for a in t['args']),
+                            '&'.join(str(d) for d in t['depends']), str(t['env']), S(t['is_parallel']), S(t['timeout']),
+                            'n' if t['workdir'] is None else S(t['workdir']), S(t['protocol']), str(t['priority'])]) for t in table['tests'])
+    return f"testser {S(bd)}|{'1' if darwin else '0'}|d|{objs}|{cells}|{tg}|{ts}"
+
+
+def ser_expected(table: dict) -> str:
+    """the real outcome in the driver's answer format"""
+    if table['outcome'] != 'OK':
+        return table['outcome']
+    pk = '/'.join(';'.join([S(t['name']), L(t['fname']), L(t['cmd_args']), ser_ops(t['env']), L(t['unset']), S(t['workdir']), S(t['timeout']),
+                            L(t['suite']), S(t['is_parallel']), S(t['priority']), S(t['protocol']), L(t['depends']), L(t['extra_paths'])])
+                  for t in table['pickled'])
+    it = '/'.join(';'.join([S(t['name']), L(t['cmd']), '&'.join(S(k) + ':' + S(v) for k, v in t['env']), S(t['workdir']), S(t['timeout']),
+                            L(t['suite']), S(t['is_parallel']), S(t['priority']), S(t['protocol']), L(t['depends']), L(t['extra_paths'])])
+                  for t in table['intro'])
+    return f'OK|{pk}|{it}'
+
+
+SER_FIELDS = ['name', 'workdir', 'timeout', 'suite', 'is_parallel', 'priority', 'protocol', 'extra_paths']
+
+
+def oracle_ser_table(table: dict) -> T.List[T.Tuple[str, str, dict]]:
+    """the property on the real results alone: the introspected entries (second serialisation) describe the pickled records (first)"""
+    viol: T.List[T.Tuple[str, str, dict]] = []
+    if table['outcome'] != 'OK':
+        return viol
+    pk, it = table['pickled'], table['intro']
+    which = table['label'] if table['label'] in ('tests', 'benchmarks') else 'tests'
+    if len(pk) != len(it):
+        viol.append((f'{which}:count-differs', f'{len(it)} introspected entries, {len(pk)} serialised records', {}))
+    for idx, (i, s) in enumerate(zip(it, pk)):
+        bad = []
+        if i['cmd'] != s['fname'] + s['cmd_args']:
+            bad.append('cmd')
+        used = {k: v for k, v in env_of(s['env']).items() if k not in s['unset']}
+        if dict(map(tuple, i['env'])) != used:
+            bad.append('env')
+        if set(i['depends']) != set(s['depends']):
+            bad.append('depends')
+        bad += [f for f in SER_FIELDS if i[f] != s[f]]
+        for b in bad:
+            viol.append((f'{which}:{b}-differs', f"entry {idx} ({i['name']!r}): introspection (second serialisation) says "
+                         f"{dict(map(tuple, i['env'])) if b == 'env' else i.get(b)!r}, the record pickled for `meson test` (first serialisation) gives "
+                         f"{used if b == 'env' else (s['fname'] + s['cmd_args']) if b == 'cmd' else s.get(b)!r}", {'index': idx, 'intro': i, 'serialised': s}))
+    if table.get('table_env_changed'):
+        viol.append((f'{which}:serialisation-changes-the-test-environments', f"create_test_serialisation changed the environment objects of the tests "
+                     f"{table['table_env_changed'][:4]!r} themselves: the next serialisation of the same table differs", {}))
+    return viol
+
+
+def serialisation_stream(ctx: Ctx, replay_seeds: T.Optional[T.List[T.Tuple[int, int]]] = None) -> None:
+    """generated test tables built through the real Interpreter / Build objects: the Lean model of create_test_serialisation (twice) +
+    get_test_list against the real functions; the property's clause on the real results"""
+    if replay_seeds is None:
+        nproj = ctx.scale(4, 40)
+        nsub = ctx.scale(8, 16)
+        jobs = [(ctx.rng.randrange(1 << 30), nsub) for _ in range(nproj)]
+    else:
+        jobs = replay_seeds
+        nproj = len(jobs)
+    scratch = common.scratch_dir('mverif-c15-ser-')
+    try:
+        with ThreadPoolExecutor(8) as ex:
+            results = list(ex.map(lambda j: run_ser_worker(j[0], 36, j[1], scratch), jobs))
+    finally:
+        common.rmtree(scratch)
+    nsub_of = dict(jobs)
+    lines: T.List[str] = []
+    index: T.List[T.Tuple[dict, dict]] = []
+    failed = 0
+    for r in results:
+        if not r.get('ok'):
+            failed += 1
+            ctx.extra.setdefault('serialisation_worker_failures', []).append({'seed': r['seed'], 'error': str(r.get('error'))[-600:]})
+            continue
+        m = r.get('machine', {})
+        if m.get('windows') or m.get('cross') or m.get('need_wrapper') or m.get('wsl'):
+            ctx.obligation_failed('serialisation-stream', f'the model of create_test_serialisation covers a native non-Windows machine; got {m}')
+            continue
+        ctx.extra['programs'] += 1
+        for table in r['tables']:
+            case = {'part': 'create_test_serialisation x2 + get_test_list', 'generator_seed': r['seed'], 'subtables': nsub_of.get(r['seed']), 'table': table['label'],
+                    'meson.build': r.get('meson_build'), 'tests_of_the_table': [t['name'] for t in table.get('tests', [])]}
+            if 'describe_error' in table:
+                ctx.obligation_failed('serialisation-stream', f"cannot describe the test table of seed {r['seed']}: {table['describe_error']}")
+                continue
+            ctx.count(len(table['tests']) + 1)
+            ctx.tag('serialisation table: ' + ('OK' if table['outcome'] == 'OK' else table['outcome']))
+            ctx.tag('serialisation table tests', len(table['tests']))
+            for t in table['tests']:
+                ctx.tag('test program kind: ' + t['exe'][0])
+                for a in t['args']:
+                    ctx.tag('test argument kind: ' + a[0])
+            shared = len(table['tests']) - len({t['env'] for t in table['tests']})
+            if shared:
+                ctx.tag('tests sharing an environment object with another test of the table', shared)
+            if table['outcome'] == 'OK':
+                if any(any(o[1] in ('LD_LIBRARY_PATH',) and o[0] == 'prepend' for o in s['env'][-1:]) for s in table['pickled']):
+                    ctx.tag('serialisation tables with an LD_LIBRARY_PATH prepend')
+                if any(s['unset'] for s in table['pickled']):
+                    ctx.tag('serialisation tables with unset variables')
+                ctx.seen_nontrivial(('ser', r['seed'], table['label']))
+            elif table['outcome'].startswith('ERR:other'):
+                ctx.obligation_failed('serialisation-stream', f"create_test_serialisation raised {table['outcome']} ({table.get('message')}) on seed {r['seed']} table {table['label']}")
+            for key, what, detail in oracle_ser_table(table):
+                c = dict(case)
+                c['detail'] = detail
+                ctx.violation(key, what + f"  [in-process configuration of the generated project seed {r['seed']}, table {table['label']}]", c)
+            lines.append(ser_request(r['build_dir'], bool(m.get('darwin')), table))
+            index.append((case, table))
+    if failed > max(1, nproj // 4):
+        ctx.obligation_failed('serialisation-stream', f"{failed} of {nproj} in-process configurations failed: {ctx.extra['serialisation_worker_failures'][0]}")
+    if ctx.model_available and lines:
+        for (case, table), ans in zip(index, ctx.driver('intro', lines)):
+            ctx.extra['disagreements_checked'] += 1
+            exp = ser_expected(table)
+            if ans != exp:
+                d = dict(case)
+                d.update({'lean': ans[:3000], 'python': exp[:3000]})
+                ctx.disagreement(d)
+    if results and not failed and replay_seeds is None:
+        for need in ('serialisation table: OK', 'serialisation table: ERR:prepend-to-unset', 'serialisation tables with an LD_LIBRARY_PATH prepend',
+                     'serialisation tables with unset variables', 'tests sharing an environment object with another test of the table'):
+            if not ctx.dist.get(need):
+                ctx.obligation_failed('vacuity', f'the serialisation stream never produced: {need}')
+
+
 # every field of the introspection files and the witness it is compared with; `independent` = does not share the producing function
 WITNESSES = {
     'targets.filename': ('independent', 'outputs of the statements of build.ninja (Lean manifest parser / Python reader)'),
@@ -1811,6 +1989,7 @@ def run(ctx: Ctx) -> None:
     results = run_jobs(jobs)
     evaluate(ctx, results, jobs_by_id)
     getenv_correspondence(ctx)
+    serialisation_stream(ctx)
     if results_have_corpus(results):
         for k in TRANSFORMATIONS:
             if not ctx.dist.get('transformation acts: ' + k):
@@ -1848,8 +2027,14 @@ def replay(ctx: Ctx, rep: dict) -> None:
     if rep.get('correspondence_disagreements'):
         cases = list(rep['correspondence_disagreements'])
     jobs = []
+    ser_jobs: T.List[T.Tuple[int, int]] = []
     for n, case in enumerate(cases):
         inp = case.get('input', case)
+        if 'generator_seed' in inp:
+            j = (int(inp['generator_seed']), int(inp.get('subtables') or 8))
+            if j not in ser_jobs:
+                ser_jobs.append(j)
+            continue
         if 'setup_args' not in inp:
             continue
         if inp.get('kind') == 'corpus':
@@ -1871,3 +2056,5 @@ def replay(ctx: Ctx, rep: dict) -> None:
         jobs.append(job)
     results = run_jobs(jobs)
     evaluate(ctx, results, {j['id']: j for j in jobs})
+    if ser_jobs:
+        serialisation_stream(ctx, ser_jobs)
